@@ -20,6 +20,7 @@ PLAN = {
         (2, 2, range(0, 8), 0.2), (2, 3, range(8, 16), 0.05),
         (3, 3, range(0, 8), 0.05),
         (4, 3, range(0, 6), 0.05), (4, 2, range(6, 10), 0.2),
+        (5, 3, range(0, 6), 0.05),
     ],
     "C12": [(3, 3, range(100, 112), 0.05), (0, 2, range(100, 108), 0.2)],
 }
@@ -28,6 +29,7 @@ SCENARIOS = {
     1: "conv(dropout 0.3)+maxpool+softmax dense, SGDM, cross-entropy, 5 samples, batch 3",
     2: "feedback block (4 loops, input+output skips, mean) + dense, centred RMSprop with momentum",
     3: "4 dense layers, two skips out of one source, loop connection, 66 validation / 66 predict_batch inputs (2 chunks)",
+    5: "deconvolution + five-filter convolution with dropout + dense, AdamW, 6 samples, batch 3",
     4: "dense 3-4-2, SGDM with dampening and decay, one batch of 24 samples (split trees with leaves of up to 3 samples)",
 }
 
